@@ -49,7 +49,7 @@ REN = "Modelled, not verified: xml-builder, the format strings, itertools sortin
 CHECKS.update({
  "C18": ("proof", "Props.C18 on the export document of the model (toXml/toDot = printer of exportDoc by definition): nodes_are_present_vertices, ascending, node_content (one entry per stored edge with label and target, data iff the vertex has data), same_content_same_text (via merge-sort of a permutation of distinct labels under the derived label order, proved strict total); and at the level of the XML text itself (Algo/RenderText.lean: the text character by character, a strict reader of the format): xml_reads_back (the reader recovers from the text alone one record per present vertex, every edge with its label as a label value and its target, the data as bytes, for labels that need no escaping) and xml_text_determines_document (the same text implies the same document, so different content gives different texts). Tie: the real to_xml()/to_dot() texts are parsed back into records and compared with the model's document; monC18 judges the parsed records against the reference state (present-only, edges, data, ascending) and compares the texts of graphs with equal content built differently.",
          "document-structure theorems and a proved left inverse of the XML printer in Lean 4; structural and exact-text correspondence of the real texts", "7 C18"),
- "C20": ("proof", "Props.C20: inspect_terminates for every reachable graph (EdgesBelow invariant + fuel bound), inspect_expands_reachable_once (expanded vertices are duplicate-free and exactly the reachable set), inspect_lists_every_edge_once (the edge entries are, as a multiset, the edges of the reachable vertices), debug_exact, vprint_exact. The line-producing recursion is proved to project onto the abstract seen-set recursion. Tie: inspect/Debug/Display/v_print texts parsed back and compared structurally; monC20 recounts the listed edges per reachable vertex against the reference; a call that gives no text (abort/time-out) is a violation attributed to that call. At the level of the text (Algo/RenderText.lean): inspect_text_lists_every_edge_once — a strict reader recovers from the text of inspect() alone the start vertex and every line (depth, label as a label value, target, ellipsis mark), and the entries so read are, as a multiset, exactly the edges of the reachable vertices.",
+ "C20": ("proof", "Props.C20: inspect_terminates for every reachable graph (EdgesBelow invariant + fuel bound), inspect_expands_reachable_once (expanded vertices are duplicate-free and exactly the reachable set), inspect_lists_every_edge_once (the edge entries are, as a multiset, the edges of the reachable vertices), debug_exact, vprint_exact. The line-producing recursion is proved to project onto the abstract seen-set recursion. Tie: inspect/Debug/Display/v_print texts parsed back and compared structurally; monC20 recounts the listed edges per reachable vertex against the reference; a call that gives no text (abort/time-out) is a violation attributed to that call. At the level of the text (Algo/RenderText.lean): inspect_text_lists_every_edge_once — a strict reader recovers from the text of inspect() alone the start vertex and every line (depth, label as a label value, target, ellipsis mark), and the entries so read are, as a multiset, exactly the edges of the reachable vertices. debug_text_reads_back (Algo/RenderDebug.lean): the same for Debug/Display — the reader recovers one record per present vertex in ascending order with all its edges (stored order, labels as label values) and its data as bytes, followed by exactly the lines of the group tables.",
          "DFS exactness and termination proofs in Lean 4; structural correspondence of the real texts", "7 C20"),
 })
 
